@@ -75,6 +75,10 @@ def align_cell(h, r):
                 return False, "'_sim_score' column is filled from a table cell `%s`" % U(re_), None, None
             return True, '', 'SCORE', U(re_)
         if he.value == '_id':
+            # the matcher carries the candidate's own _id along: the first column of the candidate row
+            if isinstance(re_, ast.Subscript) and isinstance(re_.slice, ast.Constant) and 'candset' in U(re_.value) \
+                    and re_.slice.value != 0:
+                return False, "'_id' is taken from column %r of the candidate row, not from its first column" % re_.slice.value, None, None
             return True, '', 'ID', U(re_)
         return False, 'unexpected literal header cell %r' % he.value, None, None
     if isinstance(he, ast.BinOp) and isinstance(he.op, ast.Add):
